@@ -111,7 +111,7 @@ def close(a, b, tol=1e-9):
 def run(ctx):
     common.check_obligations(ctx, THEOREMS)
     rng = ctx.rng
-    n = 400 if ctx.thorough() else 60
+    n = 4000 if ctx.thorough() else 60
     ev = 0
     tmp = tempfile.mkdtemp(prefix='verif-c18-')
     comp_cases, loop_cases = [], []
